@@ -13,7 +13,7 @@ from ..resp import Err, Status, OK, Closed, Timeout, NOTHING
 from ..util import Result
 
 PASSWORD = "s3cret-Pass_word"
-POSITIONS = ["alone", "pipe-first", "pipe-middle", "pipe-last", "after-failed-auth", "after-other-auth", "in-multi",
+POSITIONS = ["alone", "pipe-first", "pipe-middle", "pipe-last", "after-failed-auth", "after-other-auth", "in-multi", "after-quit",
              "inline"]
 HARMLESS = {"AUTH", "PING", "QUIT"}
 
@@ -65,6 +65,9 @@ def build_pipeline(argv, pos):
         seq = [argv]
     elif pos == "in-multi":
         seq = [[b"MULTI"], argv, [b"EXEC"]]
+    elif pos == "after-quit":
+        # QUIT is one of the harmless commands: what follows it in the same write is still unauthenticated
+        seq = [[b"QUIT"], argv]
     elif pos == "inline":
         return None, [argv]
     return b"".join(enc(a) for a in seq) + enc(fence), seq
@@ -175,6 +178,48 @@ def run_case(env, res, name, argv, pos, inline_supported):
             o.close()
 
 
+def killed_while_talking(env, res):
+    """An unauthenticated connection that is being closed by an administrator (CLIENT KILL) while its
+    pipelined commands are still pending: 'closing' is not 'authenticated'. The command thread is
+    stalled (SLEEP) while the kill and the victim's commands arrive, so that both are pending in one pass;
+    connection order (who is visited first) varies over the rounds."""
+    for rnd in range(24):
+        first = "killer" if rnd % 2 == 0 else "victim"
+        killer = env.srv.client() if first == "killer" else None
+        victim = env.srv.client(auth=False)
+        if killer is None:
+            killer = env.srv.client()
+        for _ in range(rnd % 5):           # shift the ids (and with them the shards) around
+            env.srv.client(auth=False).close()
+        staller = env.srv.client()
+        key = b"c17:intruder:%d" % rnd
+        addr = "%s:%d" % victim.sock.getsockname()
+        staller.send("SLEEP", "120")
+        time.sleep(0.03)
+        if rnd % 3 == 0:
+            victim.send_raw(resp.encode([b"SET", key, b"written-without-auth"]) * 20)
+            killer.send("CLIENT", "KILL", "ADDR", addr)
+        else:
+            killer.send("CLIENT", "KILL", "ADDR", addr)
+            victim.send_raw(resp.encode([b"SET", key, b"written-without-auth"]) * 20 + resp.encode([b"LPUSH", key + b":l", b"x"]))
+        try:
+            staller.recv(timeout=10)
+            killer.recv(timeout=10)
+        except (Closed, Timeout):
+            pass
+        server.wait_loops(env.ctl, 3)
+        ex = env.ctl.cmd("EXISTS", key, key + b":l")
+        res.evaluations += 1
+        res.cell("killed-while-talking", first + "-first", "victim-sends-first" if rnd % 3 == 0 else "kill-sent-first")
+        for x in (victim, killer, staller):
+            x.close()
+        if ex != 0:
+            res.violation("served/SET/while-being-killed", "an unauthenticated connection sent SET %s ... while an authenticated one ran CLIENT KILL ADDR on it (both pending "
+                          "in one event-loop pass, %s connected first): the key exists afterwards" % (resp.show(key), first))
+            env.ctl.cmd("DEL", key, key + b":l")
+            return
+
+
 def password_cases(env, res):
     pw = PASSWORD.encode()
     wrong = [pw[:i] for i in range(len(pw))] + [pw + b"x", pw + b" ", b" " + pw, pw.upper(), pw.lower(), pw.swapcase(),
@@ -263,6 +308,8 @@ def worker(shard, binary, nshards):
                     res.inconclusive.append("case %s/%s: %r" % (name, pos, e))
                 env.close()
                 env = Env(binary)
+        if shard == 1 % nshards:
+            killed_while_talking(env, res)
         if shard == 0:
             password_cases(env, res)
             res.sample("[unauthenticated] GET c:str; SYNC; KEYS *; PING fence -> every reply but PING's must be an error, no other byte")
@@ -280,7 +327,7 @@ def run(tier):
     res = util.run_workers(worker, list(range(n)), dict(binary=binary, nshards=n), nproc=n)
     return util.finish("C17", tier, seed, "exploration", res,
                        "enumeration of every dispatched command name (%d catalogue entries, gaps vs the dispatch match "
-                       "arms reported) x position {alone, first/middle/last of a pipeline, after failed AUTH, after "
+                       "arms reported) x position {alone, first/middle/last of a pipeline, after QUIT in the same write, after failed AUTH, after "
                        "another connection authenticated, inside an attempted MULTI, inline}; oracle: only AUTH/PING/QUIT "
                        "get a non-error reply, no further byte on the unauthenticated socket even after activity of the "
                        "authenticated connection (covers MONITOR/SUBSCRIBE/SYNC streams), canary dataset + consumer "
